@@ -20,9 +20,15 @@ MANIFEST = {
             "order or the declaration order; sticky components keep their value until the next qualifying event and "
             "non-sticky ones return to zero; totals are sums of step rewards. Tie: Gen/Reward.lean regenerated from "
             "rewards.py / game.py / science.py + differential rig R-rew through the real PrimaiteGame.from_config "
-            "(every sharing graph on <= 4 agents), real update_agents on synthetic states, and real PrimaiteGymEnv runs.",
-    "note": "C10-specific: floats are modelled as exact rationals (rig uses dyadic values); the simulation state is abstracted to "
-            "the keys the components read.",
+            "(every sharing graph on <= 4 agents; agents with two or more shared-reward components, cycles through any of them), "
+            "real update_agents on synthetic states, and real PrimaiteGymEnv / PrimaiteGame runs on the shipped and on generated "
+            "scenarios. The graph handed to graph_has_cycle is compared with the declared shares on every load; a Python step "
+            "oracle (component taps) checks same-step shared values and the weighted sum on the implementation alone.",
+    "note": "C10-specific: the theorems are about exact rational arithmetic (and, for the weighted sum, any associative arithmetic "
+            "with a zero). The rig compares exactly where float arithmetic is exact (dyadic families) and otherwise (decimal weights "
+            "such as 0.4 / 0.05, shipped scenarios as they are) gives the model the exact value of every double and requires the "
+            "implementation's floats to lie within an accumulated forward rounding bound (2^-53 per operation). The simulation state "
+            "is abstracted to the keys the components read.",
     "technique": "Lean 4 theorems over executable models of the graph functions and the reward layer; model tied by "
                  "regenerated tables and a differential rig",
     "design_ref": "5/C10",
@@ -43,9 +49,8 @@ def _diff_case(case: dict):
     if "bad-op" in out:
         raise RuntimeError(f"driver rejected a line of {lines}")
     model = _answers(lines, out)
-    i = next((j for j, (a, b) in enumerate(zip(impl, model)) if a != b), -1)
-    if i < 0 and len(impl) != len(model):
-        i = min(len(impl), len(model))
+    cmp_case = dict(case, **capture["observed"]) if case["family"] == "env" else case
+    i = rig.first_diff(cmp_case, impl, model, capture)
     return i < 0, impl, model, i, lines, capture
 
 
@@ -104,14 +109,88 @@ def _shrink(case: dict) -> dict:
     return cur
 
 
+def _multishare_case(rng: Rng, decimal: bool) -> dict:
+    """3..5 agents; one `hub` shares from 2..3 others (sometimes twice from the same one); the rest of the graph random and
+    forward-only under a random labelling. Variants: acyclic / a back arc from one of the hub's dependencies (chosen at random
+    among first, middle, last listed) to the hub or to an agent the hub is reached from."""
+    n = rng.range(3, 5)
+    lab = rng.shuffle(list(range(n)))          # lab[0] is the hub; arcs go from lower to higher position => acyclic
+    k = rng.range(2, min(3, n - 1))
+    deps = rng.shuffle(lab[1:])[:k]
+    arcs = [(lab[0], d) for d in deps]
+    if rng.chance(1, 4):
+        arcs.append((lab[0], rng.choice(deps)))  # a second shared-reward component naming the same agent
+    arcs += [(lab[i], lab[j]) for i in range(1, n) for j in range(i + 1, n) if rng.chance(1, 3)]
+    if rng.chance(1, 3):                       # close a cycle through one of the hub's shares
+        arcs.append((rng.choice(deps), lab[0]))
+    arcs = rng.shuffle(arcs)
+    return rig.gen_game_case(rng, n, arcs, rng.shuffle(list(range(n))), n_steps=rng.range(2, 5), rich=rng.chance(1, 4),
+                             decimal=decimal)
+
+
+def _share_coverage(ctx: Ctx, case: dict):
+    """How the case exercises agents with several shares: out-degree, repeated names, and whether the verdict / the order
+    depends on a share that is not the agent's last (or not its first) one."""
+    g = rig.declared_graph(case["agents"])
+    deg = max((len(set(v)) for v in g.values()), default=0)
+    ctx.count("shares-per-agent-max:%d" % min(deg, 4))
+    if any(len(set(v)) != len(v) for v in g.values()):
+        ctx.count("shares:same-agent-named-twice")
+    if deg >= 2:
+        cyc = rig.has_cycle_ref(g)
+        for tag, sub in (("last", {u: v[-1:] for u, v in g.items()}), ("first", {u: v[:1] for u, v in g.items()})):
+            if cyc and not rig.has_cycle_ref(sub):
+                ctx.count(f"shares:cycle-invisible-if-only-{tag}-share-kept")
+        if not cyc:
+            ctx.count("shares:acyclic-with-multi-share-agent")
+
+
+def _oracle_kinds(c: dict) -> List[str]:
+    impl, cap = rig.run_impl(c)
+    return [m.split(":")[0][:40] for m in rig.oracle_all(c, impl, cap)]
+
+
+def _shrink_oracle(case: dict, key: str) -> dict:
+    """Smallest variant on which the Python oracle still reports a failure of kind `key`."""
+    cur = case
+
+    def fails(c) -> bool:
+        try:
+            return key in _oracle_kinds(c)
+        except Exception:
+            return False
+    if not fails(case):
+        return case
+    if len(cur["steps"]) >= 2:
+        steps = shrink_ops(cur["steps"], lambda ops: fails(dict(cur, steps=ops)), budget=40)
+        if fails(dict(cur, steps=steps)):
+            cur = dict(cur, steps=steps)
+    budget = 60
+    changed = True
+    while changed and budget > 0:
+        changed = False
+        for ai, a in enumerate(cur["agents"]):
+            for ci in range(len(a["comps"])):
+                budget -= 1
+                agents = [dict(x, comps=[c for j, c in enumerate(x["comps"]) if not (k == ai and j == ci)])
+                          for k, x in enumerate(cur["agents"])]
+                cand = dict(cur, agents=agents)
+                if fails(cand):
+                    cur, changed = cand, True
+                    break
+            if changed:
+                break
+    return cur
+
+
 def replay(rec: dict) -> bool:
     with lean_lock():
         from harness.lib.core import lake_build
         lake_build([EXE])
     r = rec["replay"]
     if r.get("family") == "oracle":
-        impl, capture = rig.run_impl(r["case"])
-        return rig.oracle(r["case"], impl, capture) is None
+        kinds = _oracle_kinds(r["case"])
+        return (r["kind"] not in kinds) if "kind" in r else not kinds
     ok, *_ = _diff_case(r["case"])
     return ok
 
@@ -162,9 +241,36 @@ def _families(ctx: Ctx) -> List[Tuple[str, dict]]:
             for s in c["steps"]:
                 s["items"] = {a["ref"]: rig.gen_item(rng) for a in c["agents"]}
         cases.append(("malformed", c))
+    # agents with TWO OR MORE shared-reward components (also two components naming the same agent), the shares shuffled among
+    # the agent's other components; acyclic, or cyclic through a share chosen at random among the hub's shares; several steps with
+    # changing rewards, so that a dependency evaluated too late shows as a stale value
+    for k in range(ctx.scale(400, 8000)):
+        cases.append(("multishare", _multishare_case(rng, decimal=False)))
+    # decimal literals (0.4, 0.05, 0.33 ...), code lists of any length: the model computes on the exact values of the doubles,
+    # the implementation's floats must lie within the accumulated rounding bound
+    for k in range(ctx.scale(250, 5000)):
+        if rng.chance(1, 3):
+            cases.append(("decimal", _multishare_case(rng, decimal=True)))
+        else:
+            n = rng.range(1, 4)
+            lab = rng.shuffle(list(range(n)))
+            arcs = [(lab[u], lab[v]) for u in range(n) for v in range(n) if u < v and rng.chance(1, 2)]
+            cases.append(("decimal", rig.gen_game_case(rng, n, arcs, rng.shuffle(list(range(n))),
+                                                       n_steps=rng.range(3, ctx.scale(12, 30)), rich=True, decimal=True)))
     # the real pipeline: PrimaiteGymEnv.step on UC2 with dyadic weights, random sticky flags and declaration order
-    for k in range(ctx.scale(3, 40)):
+    for k in range(ctx.scale(2, 30)):
         cases.append(("env", rig.gen_env_case(rng, ctx.scale(40, 128))))
+    # ... on UC2 with the shipped weights (0.4 / 0.05 / 0.25 ...), on the other shipped scenarios (own weights, and dyadic ones),
+    # and on generated scenarios (harness/gen/scenario.py: switched LAN, routed, firewall+DMZ)
+    cases.append(("env-asis", rig.gen_env_case(rng, ctx.scale(40, 128), "uc2", "asis")))
+    shipped = list(rig.ENV_SHIPPED)
+    for stem in (shipped if ctx.thorough else shipped[:3] + rng.shuffle(shipped[3:])[:4]):
+        for mode in (("asis", "dyadic") if ctx.thorough or stem.startswith("uc7") else (rng.choice(["asis", "dyadic"]),)):
+            cases.append(("env-shipped", rig.gen_env_case(rng, ctx.scale(24, 96), "shipped:" + stem, mode)))
+    from harness.gen.scenario import FAMILIES as GEN_FAMILIES
+    for k in range(ctx.scale(4, 40)):
+        cases.append(("env-gen", rig.gen_env_case(rng, ctx.scale(24, 64), f"gen:{rng.choice(list(GEN_FAMILIES))}:{rng.range(1, 3)}",
+                                                  rng.choice(["asis", "dyadic"]))))
     # the two science.py functions on raw graphs (lists with repeats, dangling names)
     for k in range(ctx.scale(600, 20000)):
         cases.append(("rawgraph", rig.gen_raw_graph(rng)))
@@ -183,7 +289,7 @@ def run(ctx: Ctx):
     impl_all, lines_all, bounds, captures = [], [], [], []
     for name, case in cases:
         impl, capture = rig.run_impl(case)
-        capture["oracle"] = rig.oracle(case, impl, capture)  # the property's own oracle, on the implementation only
+        capture["oracle"] = rig.oracle_all(case, impl, capture)  # the property's own oracle, on the implementation only
         capture.pop("game", None)
         lines = rig.model_lines(case, capture)
         bounds.append((len(lines_all), len(lines)))
@@ -192,7 +298,8 @@ def run(ctx: Ctx):
         captures.append(capture)
     model_all = run_driver(EXE, lines_all)
     agree = 0
-    reported = 0
+    oracle_kinds: set = set()   # each kind of oracle failure is reported once (first case that shows it, shrunk)
+    diff_lines: Dict[str, int] = {}  # model-vs-implementation disagreements: at most 2 per answer kind (load / step / mem)
     for (name, case), impl, (st, ln), capture in zip(cases, impl_all, bounds, captures):
         lines = lines_all[st:st + ln]
         out = model_all[st:st + ln]
@@ -204,7 +311,21 @@ def run(ctx: Ctx):
         ctx.count("family:" + fam)
         if case["family"] == "env":
             case = dict(case, **capture["observed"])  # what the real run produced: agents, per-step states and items
+        if case["family"] == "env":
+            ctx.count("env-source:" + case.get("source", "uc2").split(":")[0] + ":" + case.get("weights", "dyadic"))
+            for stp in case["steps"]:  # what the real describe_state() showed the components
+                for _n, _s, codes, _f in stp["state"]["services"]:
+                    ctx.count("env-state:web-server codes " + ("none" if not codes else ("all-200" if set(codes) == {200} else "some-not-200")))
+                for _n, hist in stp["state"]["browsers"]:
+                    ctx.count("env-state:browser last outcome " + (hist[-1] if hist else "empty"))
+                for _n, _fo, _fi, h in stp["state"]["files"]:
+                    ctx.count("env-state:file health %d" % h)
+                for it in stp["items"].values():
+                    if len(it["request"]) == 6 and it["request"][3] == "application" and it["request"][5] == "execute":
+                        ctx.count("env-item:%s execute %s" % (it["request"][4], it["status"]))
         if case["family"] in ("game", "env"):
+            _share_coverage(ctx, case)
+            ctx.count("compare:" + ("exact" if case.get("exact", True) else "within-rounding-bound"))
             kinds = {rig_kind for a in case["agents"] for rig_kind in (_comp_tag(c) for c in a["comps"])}
             for kd in kinds:
                 ctx.count("comp:" + kd)
@@ -217,22 +338,29 @@ def run(ctx: Ctx):
             ctx.count("graph:" + model[0].split()[0])
             nontrivial = len(case["graph"]) > 1
         ctx.case(case, nontrivial)
-        orc = capture["oracle"]
-        if orc is not None and reported < 5:
-            reported += 1
-            ctx.violation({"kind": "oracle", "what": orc.split(":")[0][:40]}, "C10 oracle fails on the implementation: " + orc,
-                          {"family": "oracle", "case": case, "impl": impl})
-        if impl == model:
+        for orc in capture["oracle"]:
+            kind = orc.split(":")[0][:40]
+            if kind in oracle_kinds or len(oracle_kinds) >= 8:
+                continue
+            oracle_kinds.add(kind)
+            ocase = _shrink_oracle(case, kind) if case["family"] == "game" else case
+            ctx.violation({"kind": "oracle", "what": kind}, "C10 oracle fails on the implementation: " + orc,
+                          {"family": "oracle", "case": ocase, "kind": kind, "oracle_says": orc, "from": name})
+        if rig.first_diff(case, impl, model, capture) < 0:
             agree += 1
+            if impl != model:
+                ctx.count("rounding:floats-differ-from-exact-sum-within-bound")
             if fam in ("rich", "exh4", "big", "env"):
                 ctx.sample({"case": name, "lines": lines[:10], "answers": model[:3]}, cap=4)
             continue
-        if reported >= 5:
+        i0 = rig.first_diff(case, impl, model, capture)
+        lk = "graph" if case["family"] == "graph" else ("load" if i0 == 0 else ("step" if i0 % 2 == 1 else "mem"))
+        if diff_lines.get(lk, 0) >= 2:
             continue
-        reported += 1
+        diff_lines[lk] = diff_lines.get(lk, 0) + 1
         if case["family"] == "env":
             # re-run what the real pipeline produced through the synthetic surface: if it still disagrees it can be shrunk
-            synth = {"family": "game", "agents": case["agents"], "steps": case["steps"]}
+            synth = {"family": "game", "agents": case["agents"], "steps": case["steps"], "exact": case.get("exact", True)}
             if not _diff_case(synth)[0]:
                 case = synth
         small = _shrink(case)
